@@ -26,8 +26,12 @@ def cases(tier, rng):
         ex = algebra.enum_trees(3, 2, 2)
         nrand = 1500
     out = list(ex)
+    clash = gen.clash_atoms()
     for i in range(nrand):
-        out.append(gen.gen_tree(rng, depth=rng.randint(1, 4), maxar=4, collide=(i % 3 == 0)))
+        if i % 6 == 5:
+            out.append(gen.gen_tree(rng, depth=rng.randint(1, 2), maxar=4, atoms=clash))
+        else:
+            out.append(gen.gen_tree(rng, depth=rng.randint(1, 4), maxar=4, collide=(i % 3 == 0)))
     return out, len(ex)
 
 
